@@ -467,6 +467,14 @@ def _mk_seq(kind, moltype, text, offset):
         return cogent3.make_seq(text, name="s", moltype=moltype, annotation_offset=offset)
     from cogent3.core import new_moltype
 
+    if kind == "newcoll_off":
+        # a new-style Sequence built over a collection-held sequence (SeqDataView) WITH an annotation offset
+        from cogent3.core import new_alignment, new_sequence
+
+        coll = new_alignment.make_unaligned_seqs({"s": text, "other": "ACGT" if moltype != "rna" else "ACGU"}, moltype=moltype)
+        mt_obj = new_moltype.get_moltype(moltype)
+        cls = type(coll.get_seq("s"))
+        return cls(moltype=mt_obj, seq=coll.get_seq("s"), name="s", annotation_offset=offset)
     if kind == "newcoll":
         # a sequence handed out by a new-style collection: its view is a SeqDataView
         from cogent3.core import new_alignment
@@ -686,6 +694,8 @@ def spec_check(ctx, budget):
 
     for mt, text, offset, ops in cases:
         kinds = ("old", "new", "newcoll") if (offset == 0 and text and mt in ("dna", "rna", "protein")) else ("old", "new")
+        if offset != 0 and text and mt in ("dna", "rna") and rng.random() < 0.15:
+            kinds = kinds + ("newcoll_off",)
         for kind in kinds:
             out["evaluations"] += 1
             inp = dict(impl=kind, moltype=mt, parent=text, offset=offset, chain=ops)
@@ -784,7 +794,10 @@ def _was_reversed(ops):
 
 
 def match_finding(f, k):
-    if f.get("sig") not in k.get("sigs", []):
+    if k.get("sig_prefixes"):
+        if not any(str(f.get("sig", "")).split(":")[1:2] == [p] or f":{p}:" in str(f.get("sig", "")) or str(f.get("sig", "")).endswith(":" + p) for p in k["sig_prefixes"]):
+            return False
+    elif f.get("sig") not in k.get("sigs", []):
         return False
     r = k.get("restrict") or {}
     inp = f.get("input") or {}
@@ -824,6 +837,12 @@ def check_witness(ctx, w):
     for op in w["chain"]:
         seq = _apply_real(seq, op)
         mt, cur = _apply_spec(mt, cur, op)
+    if "method" not in w:
+        got = str(seq)
+        if got != cur:
+            add_failure(out, "spec", "str differs from plain-string chain", w, cur, got, sig=f"str:{w['impl']}:witness")
+            return out["failures"][0]
+        return None
     fresh = _mk_seq(w["impl"], mt, cur, 0)
     if w.get("reflected"):
         margs = dict(_reflect_methods(seq))[w["method"]](cur)
